@@ -87,12 +87,18 @@ def load_twinagg() -> list[dict]:
     return _derived("twinagg.json")
 
 
-DERIVED = ("wide", "twin", "fat", "twinagg")
+def load_dir() -> list[dict]:
+    """directive variants (tools/build_dir.py): program + #external/#heuristic/#edge/#project/#defined/#show term/
+    conditional literal/double negation/disjunction about up to three of its own predicates"""
+    return _derived("dir.json")
+
+
+DERIVED = ("wide", "twin", "fat", "twinagg", "dir")
 
 
 def load_all() -> list[dict]:
-    """base + extra + wide + twin + fat + twinagg"""
-    return load_base() + load_wide() + load_twin() + load_fat() + load_twinagg()
+    """base + extra + wide + twin + fat + twinagg + dir"""
+    return load_base() + load_wide() + load_twin() + load_fat() + load_twinagg() + load_dir()
 
 
 def load_safe(wide: bool = False) -> list[dict]:
